@@ -123,7 +123,10 @@ def meas_circuit_recipes(draw, max_w=4, max_ops=10, qudits=False, clifford=False
             if kind == "cg":
                 nc = draw(st.sampled_from([1, 1, 1, 2]))
                 cs = [draw(_cond(measured)) for _ in range(nc)]
-                ops.append({"k": "cg", "g": o["g"], "w": o["w"], "conds": cs})
+                # how the classical control is expressed: ClassicallyControlledOperation, cirq.If (single op / nested / block
+                # of two ops = CircuitOperation body), or controls added in two steps
+                form = draw(st.sampled_from(["ccop", "ccop", "ccop", "if", "if", "ifnest", "if2", "split"]))
+                ops.append({"k": "cg", "g": o["g"], "w": o["w"], "conds": cs, "form": form})
             else:
                 ops.append({"k": "g", "g": o["g"], "w": o["w"]})
     r["ops"] = ops
@@ -260,11 +263,26 @@ def build(recipe, order=None, strategy=None):
             gate = G.build_gate(o["g"])
             op = gate.on(*wq)
             base = {"t": "u", "m": cirq.unitary(gate), "ax": ax}
+            twice = False
             if k == "cg":
-                op = op.with_classical_controls(*[build_condition(cc) for cc in o["conds"]])
+                conds = [build_condition(cc) for cc in o["conds"]]
+                form = o.get("form", "ccop")
+                if form == "if":
+                    op = cirq.If(conds if len(conds) > 1 else conds[0], op)
+                elif form == "ifnest":
+                    op = cirq.If(conds[0], op.with_classical_controls(*conds[1:])) if len(conds) > 1 else cirq.If(conds, cirq.If(conds[0], op))
+                elif form == "if2":
+                    op = cirq.If(conds, op, op)  # body of two ops: wrapped into a CircuitOperation by cirq.If
+                    twice = True
+                elif form == "split" and len(conds) > 1:
+                    op = op.with_classical_controls(conds[0]).with_classical_controls(*conds[1:])
+                else:
+                    op = op.with_classical_controls(*conds)
                 base = {"t": "c", "conds": [ir_condition(cc, key_dims) for cc in o["conds"]], "op": base}
             _app(op)
             ir.append(base)
+            if twice:
+                ir.append(base)
         elif k == "ch":
             gate = G.build_gate(o["g"])
             _app(gate.on(*wq))
